@@ -30,7 +30,7 @@ CLAIMED["C05"] = ("static lock-set / atomic-consistency discipline over go/cfg (
 
 CLAIMED["C16"] = ("static: map-iteration order analysis (range-over-map bodies classified, collected slices must be sorted before use), constant evaluation of the escape table against the JSON grammar's mandatory escapes, parameter-to-buffer flow rule in JsonObjectBuilder, rune-narrowing lint with guard facts",
   "Decides that no JSON text is produced in hash-map order, that the escape table covers every character JSON requires to be escaped and maps each to its own escape, that keys and values reach the buffer only through escape() (raw literals only when constant or isNumeric-checked), and that no rune is truncated to a byte. Necessary conditions of valid/faithful/deterministic; exhaustive over the code, not over captures.",
-  "Trusts strings.Builder / range-over-string. Does not decide the numeric-literal grammar of isNumeric (a hand-written recogniser) nor decoded equality for every input.",
+  "Trusts strings.Builder / range-over-string. Does not decide decoded equality for every input; the numeric-literal grammar is decided only while isNumeric stays a forward byte scan of the interpreted idiom.",
   "DESIGN.md §3 C16")
 
 CLAIMED["C13"] = ("static: effect analysis of comparator literals (no writes to captured state), per-pair-strategy shape rule, map-iteration order analysis with sorted-before-use through callers, name tie-break rule for name/value comparators, constant evaluation of the calendar tables, shape rules for Reverse / value sorter / modifier table",
@@ -158,6 +158,7 @@ EXTRA6 = {
  "C07": ("; who-may-delete rule (entries are removed by trimming only)", " Also: sampling never removes a cell."),
  "C10": ("; touch-index rule (context touches use a negative constant index)", " Also: the touch of {time live}/{time delta} is one that wrapping contexts forward."),
  "C13": ("; time-precision lint in the sorting package", " Also: dates are ordered at full precision."),
+ "C16": ("; abstract interpretation of the numeric recogniser against the JSON number DFA (typestate of the scan index over byte classes, explored to a fixpoint; found and fixed the leading-zero defect)", " Also: every text isNumeric accepts is a JSON number (decided exactly while the recogniser stays within the interpreted scan idiom; outside it the rule reports 'not decided' and does not fail)."),
 }
 for _pid, (_t, _x) in EXTRA6.items():
     tech, text, note, ref = CLAIMED[_pid]
